@@ -26,6 +26,7 @@ Line protocol of the C03 model driver.
                                 pickle round trip of the object with channels `scope`; one `|` group per
                                 composite, innermost first (the seven fields of `Data.Comp`)
       submit <n> <c>=<v>...     run with an executor: admission only     complete <n>   the job finishes
+      replace <n> P=<c,..> Q=<c,..>   node n replaced by a fresh instance of its class; P / Q = inputs / outputs of its parent
       mutate <k> <k'>           the mutable object that was value k is changed in place into value k'
     setup, continued:
       cache <n> 0|1             use_cache of node n
@@ -129,7 +130,7 @@ def parseBit (w : String) : Option Bool :=
 def showErr : Err → String
   | .runtime => "Runtime" | .type => "Type" | .recursion => "Recursion" | .conn => "Conn"
   | .value => "Value" | .copy => "ValueCopy" | .readiness => "Readiness" | .serial => "Serial"
-  | .child => "FailedChild"
+  | .child => "FailedChild" | .replace => "Replace"
 
 /-- the outcome as the harness can see it: `invoked` = the call log grew during the operation -/
 def showOut (grew : Bool) : Out → String
@@ -216,6 +217,10 @@ def stepLine (st : St) (ws : List String) : St × List String :=
     match n.toNat?, parseKw kw with
     | some n, some kw => doOp st (.submit n kw)
     | _, _ => bad
+  | ["replace", n, pi, po] =>
+    match n.toNat?, (field "P" pi).bind parseCsv, (field "Q" po).bind parseCsv with
+    | some n, some pi, some po => doOp st (.replace n pi po)
+    | _, _, _ => bad
   | ["mutate", k, k'] =>
     match k.toNat?, k'.toNat? with
     | some k, some k' => doOp st (.mutate k k')
